@@ -18,6 +18,43 @@ KEYWORDISH = ["class", "int", "delete", "new", "this", "template", "operator", "
               "virtual", "static", "struct", "typename", "long", "short", "void", "auto", "bool", "break", "goto"]
 
 
+def rule_src(w):
+    return (w["label"] + ": " if w["label"] else "") + w["expr"] + ";"
+
+
+def rule_norm(text, spec=False):
+    """a rule text up to layout: outside EXPRESS string literals white space and parentheses are dropped (the expression
+    printer's layout is C07's subject).  spec=True: what the property compares — also case-insensitive outside literals, and an
+    unlabelled rule may carry the parser's placeholder label"""
+    import re
+    segs, lit = [[False, ""]], False
+    for c in text:
+        if c == "'":
+            if lit:
+                segs[-1][1] += c
+                segs.append([False, ""])
+            else:
+                segs.append([True, c])
+            lit = not lit
+        elif lit:
+            segs[-1][1] += c
+        elif c in " \t\r\n()":
+            continue
+        else:
+            segs[-1][1] += c.lower() if spec else c
+    # 1.0 and 1. are the same real literal (how it is printed is the expression printer's choice)
+    out = [x if q else re.sub(r"(\d+\.\d*?)0+(?!\d)", r"\1", x) for q, x in segs]
+    t = "".join(out)
+    if spec and t.startswith("<unnamed>:"):
+        t = t[len("<unnamed>:"):]
+    return t
+
+
+def rule_quote(t):
+    import urllib.parse
+    return urllib.parse.quote(t, safe="<>=:.\\'+-*/[]_,;")
+
+
 class Schema:
     def __init__(self, name):
         self.name = name
@@ -82,7 +119,8 @@ class Schema:
                 rhs = "SELECT (" + ", ".join(self.tref_text(m) for m in b[1]) + ")"
             else:
                 rhs = self.tref_text(b[1])
-            out.append(f"TYPE {t['name']} = {rhs}; END_TYPE;")
+            wr = "".join(" " + rule_src(w) for w in t.get("wheres", []))
+            out.append(f"TYPE {t['name']} = {rhs};" + (" WHERE" + wr if wr else "") + " END_TYPE;")
         for e in self.entities:
             h = f"ENTITY {e['name']}"
             if e["abstract"]:
@@ -103,6 +141,14 @@ class Schema:
                         out.append(f"  {nm} : {ty} FOR {a['inv']};")
                     else:
                         out.append(f"  {nm} : {ty};")
+            if e.get("uniques"):
+                out.append("UNIQUE")
+                for u in e["uniques"]:
+                    out.append("  " + (u["label"] + " : " if u["label"] else "") + ", ".join(u["attrs"]) + ";")
+            if e.get("wheres"):
+                out.append("WHERE")
+                for w in e["wheres"]:
+                    out.append("  " + rule_src(w))
             out.append("END_ENTITY;")
         out.append("END_SCHEMA;")
         return "\n".join(out) + "\n"
@@ -127,6 +173,8 @@ class Schema:
                 out.append(f"type {t['name'].lower()} select " + ";".join(self.tref_ast(m) for m in b[1]))
             else:
                 out.append(f"type {t['name'].lower()} alias " + self.tref_ast(b[1]))
+            for w in t.get("wheres", []):
+                out.append(f"twhere {(w['label'] or '-').lower()} {w['expr'].encode().hex()}")
         for e in self.entities:
             out.append(f"entity {e['name'].lower()} {1 if e['abstract'] else 0} " + (",".join(x.lower() for x in e["supers"]) or "-"))
             for kind in "EDI":
@@ -134,6 +182,12 @@ class Schema:
                     if a["kind"] == kind:
                         out.append(" ".join(["attr", a["name"].lower(), (a["redecl"] or "-").lower(), kind, "1" if a["opt"] else "0",
                                              (a.get("inv") or "-").lower(), self.tref_ast(a["type"])]))
+                        if kind == "D":
+                            out.append("ainit " + a.get("init", "1").encode().hex())
+            for u in e.get("uniques", []):
+                out.append(f"eunique {(u['label'] or '-').lower()} " + ";".join(x.encode().hex() for x in u["attrs"]))
+            for w in e.get("wheres", []):
+                out.append(f"ewhere {(w['label'] or '-').lower()} {w['expr'].encode().hex()}")
         out.append("end")
         return "\n".join(out) + "\n"
 
@@ -174,6 +228,14 @@ class Schema:
                 else:
                     k = "D" if a["kind"] == "D" else ("R" if a["redecl"] else "E")
                     L.append(f" ATTR {dn} kind={k} opt={1 if a['opt'] else 0} owner={n} type={self.spec_ref(a['type'])}")
+            for a in self.attrs_ordered(e):
+                if a["kind"] == "D":
+                    dn = (a["redecl"].lower() + "." if a["redecl"] else "") + a["name"].lower()
+                    L.append(f" DI {dn} " + rule_quote(rule_norm(a.get("init", "1"), True)))
+            for i, u in enumerate(e.get("uniques", [])):
+                L.append(f" UR {i} " + rule_quote(rule_norm((u["label"] + ":" if u["label"] else "") + ",".join(u["attrs"]), True)))
+            for i, w in enumerate(e.get("wheres", [])):
+                L.append(f" WR {i} " + rule_quote(rule_norm((w["label"] + ":" if w["label"] else "") + w["expr"] + ";", True)))
         for t in sorted(self.types, key=lambda t: t["name"].lower()):
             n, b = t["name"].lower(), t["body"]
             if b[0] == "enum":
@@ -194,6 +256,9 @@ class Schema:
                     elif r[0] == "select":
                         extra = " members=" + ",".join(self.spec_ref(m) for m in r[1])
                     L.append(f"TYPE {n} ft=REF ref=@{tr[1].lower()}{self.g_line(('N', t['name']))}{extra}")
+            if t.get("wheres"):
+                L[-1] += " wr=" + "|".join(rule_quote(rule_norm((w["label"] + ":" if w["label"] else "") + w["expr"] + ";", True))
+                                           for w in t["wheres"])
         return L
 
     # what the getters that follow referent links must answer for a type expression
@@ -309,7 +374,7 @@ class Gen:
     def __init__(self, rng, **knobs):
         self.rng = rng
         self.k = dict(renamed_enum=True, renamed_select=True, named_aggr_of_enumsel=True, named_multidim=True, rename_chains=True,
-                      keywordish=True, mixed_case=True, n_entities=(3, 9), n_types=(3, 9))
+                      keywordish=True, mixed_case=True, n_entities=(3, 9), n_types=(3, 9), rules=True)
         self.k.update(knobs)
         self.used = set()
 
@@ -475,7 +540,12 @@ class Gen:
             # derived attribute
             if r.random() < 0.3:
                 an = self.ident()
-                e["attrs"].append(dict(name=an, redecl=None, kind="D", opt=False, type=("B", "INTEGER"), init="1", inv=None))
+                if K["rules"] and r.random() < 0.5:     # initializer text with everything a C string literal cares about
+                    e["attrs"].append(dict(name=an, redecl=None, kind="D", opt=False, type=("B", "STRING"), init=self.str_lit(), inv=None))
+                    s.tags.add("derived-string-literal")
+                else:
+                    e["attrs"].append(dict(name=an, redecl=None, kind="D", opt=False, type=("B", "INTEGER"),
+                                           init=r.choice(["1", "1", "2 + 3", "-7", "65536 * 2"]), inv=None))
             # redeclaration of an inherited explicit attribute (same type, or derived)
             cands = []
             for m in self._anc(s, sup):
@@ -509,6 +579,8 @@ class Gen:
                     ty = ("A", r.choice(["SET", "BAG"]), 0, "?", False, False, ("E", e["name"])) if agg else ("E", e["name"])
                     tgt["attrs"].append(dict(name=iname, redecl=None, kind="I", opt=False, type=ty, inv=a["name"]))
                     s.tags.add("inverse")
+        if K["rules"]:
+            self.add_rules(s)
         # abstract supertypes: only entities that have a subtype
         for e in s.entities:
             if any(e["name"] in x["supers"] for x in s.entities) and r.random() < 0.25:
@@ -522,6 +594,84 @@ class Gen:
         r.shuffle(s.entities)
         # spelling: the generator keeps canonical lower-case names; text() may spell references in mixed case
         return s
+
+    # ---------------------------------------------------------------- WHERE / UNIQUE rules
+    # characters of string literals: everything that means something to EXPRESS, to C/C++ string literals or to printf
+    STR_CHARS = list("abz09 _") + ['"', "\\", "%", "/", "*", "(", ")", ";", ":", "''", "<", ">", "=", "|", "&", "{", "}", "#", "~",
+                                   "^", "`", "@", "!", "$", ".", ",", "[", "]", "-", "+", "?", "%s", "%n", "\\n", '\\"', "(*", "--"]
+
+    def str_lit(self):
+        r = self.rng
+        body = "".join(r.choice(self.STR_CHARS) for _ in range(r.choice([0, 1, 1, 2, 3, 5, 12])))
+        body = body.replace("??", "?")          # no trigraphs: those are the C++ compiler's business
+        return "'" + body + "'"
+
+    def atom(self, s, ref, tr):
+        """a logical expression about the value `ref` of type tr"""
+        r = self.rng
+        bk = s.base_kind(tr)
+        c = r.random()
+        if bk in ("INTEGER", "REAL", "NUMBER") and c < 0.8:
+            return f"{ref} {r.choice(['<', '>', '<=', '>=', '<>', '='])} {r.choice([0, 1, 7, 100, 65536])}"
+        if bk == "STRING" and c < 0.8:
+            return f"{ref} {r.choice(['<>', '='])} {self.str_lit()}"
+        if bk == "AGGR" and c < 0.6:
+            return f"SIZEOF({ref}) {r.choice(['<', '>', '>='])} {r.randint(0, 9)}"
+        return f"EXISTS({ref})"
+
+    def expr(self, s, refs):
+        """refs: list of (text, type, attribute name); returns (expression text, attribute names used)"""
+        r = self.rng
+        n = r.choice([1, 1, 1, 2, 2, 3]) if r.random() < 0.92 else r.randint(12, 30)     # long: the printer wraps lines
+        parts, used = [], []
+        for _ in range(n):
+            ref, tr, an = r.choice(refs)
+            a = self.atom(s, ref, tr)
+            if r.random() < 0.15:
+                a = f"NOT ({a})"
+            parts.append(a); used.append(an)
+        if n == 1:
+            return parts[0], used
+        op = r.choice([" AND ", " OR "])
+        return op.join(f"({p})" for p in parts), used
+
+    def add_rules(self, s):
+        r = self.rng
+        for t in s.types:
+            if r.random() < 0.25:
+                ws = []
+                for _ in range(r.choice([1, 1, 2, 3])):
+                    ex, _u = self.expr(s, [("SELF", ("N", t["name"]), None)])
+                    ws.append(dict(label=self.ident() if r.random() < 0.7 else None, expr=ex, uses=[]))
+                t["wheres"] = ws
+                s.tags.add("type-where")
+        for e in s.entities:
+            refs = [(a["name"] if r.random() < 0.7 else "SELF." + a["name"], a["type"], a["name"])
+                    for a in e["attrs"] if a["kind"] == "E" and not a["redecl"]]
+            own = {a["name"] for a in e["attrs"]}
+            seen = set(own)
+            for m in reversed(self._anc(s, e["supers"])):
+                for a in s.Ent(m)["attrs"]:
+                    if a["kind"] == "E" and not a["redecl"] and a["name"] not in seen:
+                        seen.add(a["name"])
+                        refs.append((f"SELF\\{m}.{a['name']}", a["type"], a["name"]))
+            if not refs:
+                continue
+            if r.random() < 0.3:
+                us = []
+                for _ in range(r.choice([1, 1, 2, 3])):
+                    pick = r.sample(refs, min(len(refs), r.choice([1, 1, 2, 3])))
+                    us.append(dict(label=self.ident() if r.random() < 0.7 else None,
+                                   attrs=[x[0][5:] if x[0].startswith("SELF.") else x[0] for x in pick], uses=[x[2] for x in pick]))
+                e["uniques"] = us
+                s.tags.add("unique")
+            if r.random() < 0.35:
+                ws = []
+                for _ in range(r.choice([1, 1, 2, 3, 6])):
+                    ex, used = self.expr(s, refs)
+                    ws.append(dict(label=self.ident() if r.random() < 0.7 else None, expr=ex, uses=used))
+                e["wheres"] = ws
+                s.tags.add("where")
 
     @staticmethod
     def _anc(s, sups):
